@@ -13,14 +13,14 @@ CLAIMS = {
     "C03": ("exploration", "syncnet+aionet", "Simulated peer writes a stream and closes at a chosen position; caller histories of recv_packet/iter_received_packets with timeouts; history oracle (prefix, sticky EOF, no wait after EOF, justified TimeoutError).", "Trusted: SimSocket/SimSelector fidelity for recv/EOF/EAGAIN; world knows byte visibility times.", "simulated peer close positions x call histories, history check"),
     "C04": ("exploration", "syncnet+aionet+tls", "Generated chunk lists incl. empty chunks sent through every transport under short writes/EAGAIN/EINTR/reset; byte-exact oracle at the peer, budget on time and socket operations, loop spin detector; histories: a send suspended by back-pressure is abandoned by its time budget, the peer drains, later sends must complete (a hung send is a violation).", "Trusted: SimSocket send/sendmsg semantics (short counts, EAGAIN, EPIPE).", "per-call fault sequences, byte-exact peer oracle, spin/livelock detectors"),
     "C05": ("exploration", "syncnet+aionet", "Datagram net with loss/dup/reorder/malformed datagrams; each outcome compared with decoding that datagram alone with a fresh protocol; one sendto per send_packet; asyncio receives under zero/short timeouts, iter_received_packets and external cancellation (an interrupted receive consumes no datagram).", "Trusted: datagram SimSocket semantics; fresh-serializer reference.", "datagram fault interleavings against decode-alone reference"),
-    "C06": ("exploration", "chunk", "Corruption of valid traffic in flight + structurally extreme inputs + random bytes, delivered with chunkings into the three modes; oracle = exception-type totality, strict progress, watchdog.", "One-shot part is input generation (said so in DESIGN); limits <= 64 KiB.", "in-flight corruption x chunking, exception totality and progress oracle"),
+    "C06": ("exploration", "chunk", "Corruption of valid traffic in flight + structurally extreme inputs + random bytes, delivered with chunkings into the three modes; oracle = exception-type totality, strict progress, watchdog; on streams whose frame boundaries are known by construction: an error does not consume the frames behind the refused one (remainder clauses).", "One-shot part is input generation (said so in DESIGN); limits <= 64 KiB.", "in-flight corruption x chunking, exception totality and progress oracle"),
     "C07": ("exploration", "chunk", "Slow-loris peer and several-frames-per-read workloads over limits/separators/chunkings; behavioural bound oracle.", "Trusted: the bound arithmetic derived from the property text (limit + one read + one separator).", "slow-loris peer simulation, behavioural limit bound"),
     "C08": ("exploration", "tls", "Two writers + two readers over a TLS transport against an independent stdlib ssl peer; cipher-text fragmentation, delays, bounded capacity, three peer shapes; plaintext equality, no plaintext marker on the wire, deadlock detector; chatty variant: two writers with 30-120 back-to-back small writes (continuous hand-over of the send lock) + reader against a write-then-read peer.", "Trusted: stdlib ssl/OpenSSL as reference peer; cipher-text content is not reproducible, lengths are.", "full-duplex schedule search against a reference TLS peer"),
     "C09": ("fault_enumeration", "tls", "For seeded base scenarios, FIN is injected after every (thorough) / every structurally interesting (quick) byte offset of the peer's cipher-text, for both roles, TLS 1.2/1.3, both modes, async and blocking transports; histories: close with unread application data, close while a writer holds the send lock; server transports also produced through AsyncTLSListener.serve.", "Complete only for the base scenarios swept; cipher-text lengths assumed reproducible (re-measured every run).", "systematic cut-offset sweep over seeded base scenarios"),
     "C10": ("exploration", "aionet+syncnet", "Receiver under cancel sources with arrivals aligned to the cancelling timer (same iteration both orders, adjacent iterations); numbered stream equality; TLS with two concurrent writers holding/queueing for the send lock; bulk (>= 256 KiB) rescues.", "Trusted: asyncio loop iteration structure is the real one; alignment is done by the simulator's selector.", "arrival/cancellation coincidence search, stream equality"),
-    "C11": ("exploration", "syncnet+threads", "Blocking calls under drip-feed/burst/spurious-readiness schedules on a virtual clock; elapsed <= T exactly, zero timeout never waits, TimeoutError justified by visibility times; select() overshoot fault (late idle wake-ups), slack = lateness of the last select only.", "Processing costs zero virtual time, so the bound is exact.", "virtual-clock arrival schedules, exact budget oracle"),
+    "C11": ("exploration", "syncnet+threads", "Blocking calls under drip-feed/burst/spurious-readiness schedules on a virtual clock; elapsed <= T exactly, zero timeout never waits, TimeoutError justified by visibility times; select() overshoot fault (late idle wake-ups), slack = lateness of the last select only; iterator budgets across parse errors and after exhaustion.", "Processing costs zero virtual time, so the bound is exact.", "virtual-clock arrival schedules, exact budget oracle"),
     "C12": ("exploration", "aionet+threads", "N concurrent senders with back-pressure, short writes and resume orders; wire decodes into exactly the multiset sent, per-sender order; cancellation of arbitrary lock waiters in the very iteration in which the owner releases (asyncio.Lock and the library FairLock), TLS queued-sender cancellation.", "Trusted: reference decoder of self-identifying packets.", "sender interleaving search under back-pressure"),
-    "C13": ("exploration", "aioloop", "Generated scope programs with external cancels run on the real backend under virtual time; invariants A1-A6 (incl. an external cancel accepted inside a shielded section: open finding D23) and (restricted programs) trace equality with a reference interpreter.", "Reference interpreter models level-triggered scope semantics; ties accept both outcomes.", "generated scope programs x cancel times, invariant + reference-interpreter oracle"),
+    "C13": ("exploration", "aioloop", "Generated scope programs with external cancels run on the real backend under virtual time; invariants A1-A6 (incl. an external cancel accepted inside a shielded section: open findings D23, D35; statements that re-raise a fresh CancelledError or swallow it) and (restricted programs) trace equality with a reference interpreter.", "Reference interpreter models level-triggered scope semantics; ties accept both outcomes.", "generated scope programs x cancel times, invariant + reference-interpreter oracle"),
     "C14": ("fault_enumeration", "aionet+tls", "For seeded base scenarios of every close path, task.cancel() is injected before every loop iteration, and wrapped-transport errors at every call index; everything must end closed and a second close must be prompt; teardown of the server connection task with unsent bytes against a non-reading peer.", "Complete only for the base scenarios swept; a task steps at most once per loop iteration.", "cancellation-point sweep over seeded close scenarios"),
     "C15": ("exploration", "aionet", "Real TCP server on the simulated backend, 1-3 peers, chunking/delays/restarts/timeouts/bad frames; per-connection reference sequence, close-once; close while a background sender holds the send lock.", "Trusted: frame reference model; handler instrumentation.", "server schedule search against per-connection reference sequence"),
     "C16": ("exploration", "aionet", "Real UDP server, 2-4 addresses, arrival order vs handler progress; per-address FIFO, <=1 active generator, liveness after arrivals stop.", "Trusted: asyncio datagram transport on SimSocket.", "datagram arrival x handler progress interleavings"),
